@@ -75,7 +75,7 @@ def nontrivial(case, truth, res, mask, n):
         conds = [d for g in eff["pre"] for d in g]
         if len(eff["pre"]) >= 2:
             return True
-        if len(conds) >= 2 and any(not S.is_truthy((truth.get(d["cid"]) or ["T"])[0]) for d in conds):
+        if len(conds) >= 2 and any(any(not S.is_truthy(code_) for code_ in (truth.get(d["cid"]) or ["T"])) for d in conds):
             return True
     return False
 
